@@ -216,6 +216,9 @@ func main() {
 		if flTier == "thorough" {
 			limit = 300
 		}
+		if raceEnabled {
+			limit = 240
+		}
 		for {
 			time.Sleep(2 * time.Second)
 			st := atomic.LoadInt64(&curStart)
@@ -243,6 +246,14 @@ func main() {
 					rf.Violation.Features = opFeatures(*liveOps)
 				}
 				rep.Viol = []ReplayFile{rf}
+				if flProp == "C19" {
+					// C19 reports data races only: a run that exceeds the wall-clock watchdog under the
+					// (10x slower) race build is abandoned and counted, not reported
+					rep.Viol = nil
+					rep.Outcome = "ok"
+					rep.Nontrivial = false
+					rep.Stats = map[string]int{"runs_abandoned_by_watchdog": 1}
+				}
 				emit("RUN", rep)
 				emit("END", map[string]any{"runs": done + 1, "wall_s": time.Since(t0).Seconds(), "hang": true})
 				os.Exit(0)
